@@ -11,7 +11,7 @@ package database
 // getTransactionsUtxo / saveUtxoView / saveContractView / deleteContractView,
 // and the real MemDB backend with its batch.
 
-//verif:property C10
+//verif:property C10 C13
 //verif:bound utxo: pre-state of 2 pre-existing outputs, each absent or {type in 0..2, creation height < block height, spent}; block height in [1, 2^62); block = coinbase tx (1 output) + 1..2 ordinary txs (inputs x outputs per ordinary tx; quick: 1 tx of 1x1, 2x1 or 1x2, and 2 txs of 1x1; thorough adds 1 tx of 2x2 and 2 txs of 1x2; 2 txs of 2x1 would need more than 2 pre-existing outputs to attach and are not covered); every input spends a pre-existing output or an output of an earlier ordinary tx of the block (double spends included; by symmetry of the two pre-existing outputs the very first input spends number 0); every output is original / vote / retirement with arbitrary amount (0 included)
 //verif:bound reorganisation view: block b and sibling b' at the same height over 2 pre-existing outputs, one ordinary tx each with 1 input (quick) / 2 inputs (thorough) and 1 output; b' has its own tx or confirms b's tx again
 //verif:bound contracts: one contract hash slot; pre-state absent or registered by an earlier tx; contract bodies X, Y of 2 arbitrary bytes (Y == X possible); block of 2 txs each registering X, Y or nothing; sibling block likewise, optionally confirming one tx of b again
@@ -31,6 +31,7 @@ package database
 //verif:obligation fn=VerifC10Reorg args=1,2,1
 //verif:obligation fn=VerifC10Reorg args=2,0,0;2,1,0;2,2,0;2,0,1;2,1,1;2,2,1 tier=thorough secs=3000 paths=2000000
 //verif:obligation fn=VerifC10Contracts validate=12
+//verif:obligation property=C13 fn=VerifC13Batch validate=12
 
 import (
 	"bytes"
@@ -596,4 +597,47 @@ func VerifC10Contracts() {
 		verifC10SameContract(db, ref, hy, "reorg")
 		verifReach("VerifC10Contracts:reorganised")
 	}
+}
+
+// ---------------------------------------------------------------------------
+// C13 (spending rules at attach), several blocks connected through ONE view as
+// reorganizeChain does: an output spent by an earlier block of the batch must
+// not be spendable again by a later block of the same batch.
+
+func VerifC13Batch() {
+	h := verifU64("height")
+	verifAssume(h >= 1 && h < 1<<62)
+	pre, pool := verifC10PreState(1, h)
+	db := dbm.NewMemDB()
+	mk := func(tag int, height uint64) *bc.Block {
+		tx := &bc.Tx{TxHeader: &bc.TxHeader{}, ID: verifC10TxID(tag, 1), Entries: map[bc.Hash]bc.Entry{}}
+		c := pool[0]
+		tx.SpentOutputIDs = append(tx.SpentOutputIDs, c.id)
+		if c.vote {
+			tx.Entries[c.id] = verifC10Entry(verifC10Vote, 1)
+		} else {
+			tx.Entries[c.id] = verifC10Entry(verifC10Orig, 1)
+		}
+		id := verifC10OutID(tag, 1, 0)
+		tx.ResultIds = append(tx.ResultIds, &id)
+		tx.Entries[id] = verifC10Entry(verifC10Orig, 7)
+		return &bc.Block{BlockHeader: &bc.BlockHeader{Height: height}, Transactions: []*bc.Tx{tx}}
+	}
+	a, b := mk(0, h), mk(1, h+1)
+	for _, p := range pre {
+		if p.present {
+			data, _ := proto.Marshal(storage.NewUtxoEntry(p.typ, p.height, p.spent))
+			db.Set(CalcUtxoKey(&p.id), data)
+		}
+	}
+	view := state.NewUtxoViewpoint()
+	errA := verifC10Attach(db, view, a)
+	verifObserveBool("errA", errA != nil)
+	if errA == nil {
+		errB := verifC10Attach(db, view, b)
+		verifObserveBool("errB", errB != nil)
+		verifAssert(errB != nil, "output-spent-earlier-in-the-batch-is-not-spendable-again")
+		verifReach("VerifC13Batch:first-spend-accepted")
+	}
+	verifReach("VerifC13Batch:end")
 }
